@@ -1120,6 +1120,474 @@ theorem calcFext_spec (a : FextIn K) (hw : WF a) (f : List K) (h : calcFext a = 
 
 end fextspec
 
+/-! ## `calc_fext`: load factor, superposition, virtual work -/
+
+section lin
+variable {K : Type} [Field K] [DecidableEq K]
+set_option linter.unusedSectionVars false
+set_option linter.unusedSimpArgs false
+
+/-- shape of the axial edge load in `fext_tmp`, per unit load factor (depends on `Nxxtop` linearly) -/
+def axShape (a : FextIn K) (q : Nat) : K :=
+  (if 0 ∉ a.E then
+    (if q = 0 then a.Nxxtop.getD 0 0 * (2 * a.pi * a.r2) / a.cosa else 0)
+    + (if a.bc24 then
+        ((List.range a.n2).map fun dj => ((List.range a.m2).map fun di =>
+          (if q = rowOf a di dj + 0 then a.Nxxtop.getD (1 + 2 * dj + 0) 0 * a.pi * a.r2 else 0)
+          + (if q = rowOf a di dj + 1 then a.Nxxtop.getD (1 + 2 * dj + 1) 0 * a.pi * a.r2 else 0)).sum).sum
+      else 0)
+   else 0)
+  + (if 2 ∉ a.E then (if q = 2 then a.Nxxtop.getD 2 0 * (2 * a.pi * a.r2) / a.cosa else 0) else 0)
+
+/-- shape of a unit pressure in `fext_tmp` -/
+def prShape (a : FextIn K) (q : Nat) : K :=
+  if a.clpt then
+    ((List.range a.m1).map fun di =>
+      if a.i0 + di ≠ 0 ∧ q = a.num0 + di * a.num1 + 2 then pressureCoef a.L a.r2 a.sina (a.i0 + di) else 0).sum
+  else 0
+
+theorem tmpSpec_eq (a : FextIn K) (Ptot : K) (q : Nat) :
+    tmpSpec a Ptot q = a.inc * axShape a q + Ptot * prShape a q := by
+  have e1 : ∀ x : K, a.inc * x * a.pi * a.r2 = a.inc * (x * a.pi * a.r2) := fun x => by ring
+  have e2 : ∀ x : K, a.inc * x * (2 * a.pi * a.r2) / a.cosa = a.inc * (x * (2 * a.pi * a.r2) / a.cosa) :=
+    fun x => by ring
+  unfold tmpSpec axShape prShape
+  simp only [e1, e2, mul_add, mul_ite_zero, ← List.sum_map_mul_left]
+
+/-- `Σ_forces f · shape functions` at full amplitude `q` -/
+def ptShape (fs : List (PointForce K)) (q : Nat) : K := (fs.map fun f => pointRow f q).sum
+
+/-- part of entry `i` of `calc_fext` that does not depend on the load factor: constant point forces, `P`, `T` -/
+def constPart (a : FextIn K) (i : Nat) : K :=
+  ptShape a.forces (up a.E i) + a.P * prShape a (up a.E i)
+  + (if a.pdT then 0 else a.T / a.r2 * rowAt a.g00 1 (up a.E i))
+
+/-- part of entry `i` of `calc_fext` that is multiplied by the load factor: incremented point forces, the axial
+edge load `Nxxtop`, `P_inc`, `T_inc`, and the prescribed end shortening `uTM` / end rotation `thetaTrad` -/
+def incPart (a : FextIn K) (i : Nat) : K :=
+  ptShape a.forcesInc (up a.E i) + axShape a (up a.E i) + a.Pinc * prShape a (up a.E i)
+  - (if 0 ∈ a.E then a.uTM * a.k0uk.toFun i 0 else 0)
+  + (if a.pdT then -(a.thetaT * a.k0uk.toFun i 1) else a.Tinc / a.r2 * rowAt a.g00 1 (up a.E i))
+
+theorem fextSpec_eq_const_inc (a : FextIn K) (i : Nat) : fextSpec a i = constPart a i + a.inc * incPart a i := by
+  unfold fextSpec constPart incPart ptShape
+  rw [tmpSpec_eq]
+  by_cases h0 : 0 ∈ a.E <;> by_cases hT : a.pdT = true <;> simp only [h0, hT, if_true, if_false, Bool.false_eq_true] <;> ring
+
+/-- the loads `calc_fext` reads -/
+structure Loads (K : Type) where
+  forces : List (PointForce K)
+  forcesInc : List (PointForce K)
+  Nxxtop : List K
+  P : K
+  Pinc : K
+  T : K
+  Tinc : K
+  uTM : K
+  thetaT : K
+
+/-- the same shell / model / prescribed set, other loads -/
+def withLoads (fr : FextIn K) (ld : Loads K) : FextIn K :=
+  { fr with forces := ld.forces, forcesInc := ld.forcesInc, Nxxtop := ld.Nxxtop, P := ld.P, Pinc := ld.Pinc,
+            T := ld.T, Tinc := ld.Tinc, uTM := ld.uTM, thetaT := ld.thetaT }
+
+/-- entry-wise sum of two arrays, the shorter one padded with zeros -/
+def vaddMax (x y : List K) : List K := vecOf (max x.length y.length) fun i => x.getD i 0 + y.getD i 0
+
+def scaleForce (c : K) (f : PointForce K) : PointForce K := ⟨c * f.fx, c * f.ft, c * f.fz, f.g⟩
+
+/-- superposition of two load sets (point forces are collected, everything else adds) -/
+def Loads.add (x y : Loads K) : Loads K :=
+  ⟨x.forces ++ y.forces, x.forcesInc ++ y.forcesInc, vaddMax x.Nxxtop y.Nxxtop, x.P + y.P, x.Pinc + y.Pinc,
+   x.T + y.T, x.Tinc + y.Tinc, x.uTM + y.uTM, x.thetaT + y.thetaT⟩
+
+/-- a load set scaled by `c` -/
+def Loads.smul (x : Loads K) (c : K) : Loads K :=
+  ⟨x.forces.map (scaleForce c), x.forcesInc.map (scaleForce c), x.Nxxtop.map (c * ·), c * x.P, c * x.Pinc,
+   c * x.T, c * x.Tinc, c * x.uTM, c * x.thetaT⟩
+
+theorem vaddMax_getD (x y : List K) (i : Nat) : (vaddMax x y).getD i 0 = x.getD i 0 + y.getD i 0 := by
+  unfold vaddMax
+  by_cases h : i < max x.length y.length
+  · rw [vecOf_getD _ _ _ h]
+  · have hx : x.length ≤ i := by omega
+    have hy : y.length ≤ i := by omega
+    simp [vecOf, List.getD_eq_getElem?_getD, h, hx, hy]
+
+theorem map_mul_getD (c : K) (x : List K) (i : Nat) : (x.map (c * ·)).getD i 0 = c * x.getD i 0 := by
+  simp only [List.getD_eq_getElem?_getD, List.getElem?_map]
+  cases x[i]? <;> simp
+
+theorem ptShape_append (xs ys : List (PointForce K)) (q : Nat) :
+    ptShape (xs ++ ys) q = ptShape xs q + ptShape ys q := by
+  simp [ptShape, List.map_append, List.sum_append]
+
+theorem ptShape_scale (c : K) (xs : List (PointForce K)) (q : Nat) :
+    ptShape (xs.map (scaleForce c)) q = c * ptShape xs q := by
+  unfold ptShape
+  rw [List.map_map, ← List.sum_map_mul_left]
+  congr 1
+  apply List.map_congr_left
+  intro f _
+  simp only [Function.comp, pointRow, scaleForce]
+  ring
+
+theorem rowOf_withLoads (fr : FextIn K) (ld : Loads K) (di dj : Nat) :
+    rowOf (withLoads fr ld) di dj = rowOf fr di dj := rfl
+
+theorem axShape_add (fr : FextIn K) (x y : Loads K) (q : Nat) :
+    axShape (withLoads fr (x.add y)) q = axShape (withLoads fr x) q + axShape (withLoads fr y) q := by
+  simp only [axShape, rowOf_withLoads]
+  simp only [withLoads, Loads.add, vaddMax_getD, add_mul, add_div, ite_add_zero, List.sum_map_add]
+  ac_rfl
+
+theorem axShape_smul' (a b : FextIn K) (c : K) (q : Nat) (hE : b.E = a.E)
+    (hN : ∀ k, b.Nxxtop.getD k 0 = c * a.Nxxtop.getD k 0) (hpi : b.pi = a.pi) (hr : b.r2 = a.r2)
+    (hc : b.cosa = a.cosa) (hbc : b.bc24 = a.bc24) (hn2 : b.n2 = a.n2) (hm2 : b.m2 = a.m2)
+    (hrow : ∀ di dj, rowOf b di dj = rowOf a di dj) : axShape b q = c * axShape a q := by
+  have e1 : ∀ v : K, c * v * a.pi * a.r2 = c * (v * a.pi * a.r2) := fun v => by ring
+  have e2 : ∀ v : K, c * v * (2 * a.pi * a.r2) / a.cosa = c * (v * (2 * a.pi * a.r2) / a.cosa) :=
+    fun v => by ring
+  unfold axShape
+  rw [hE, hpi, hr, hc, hbc, hn2, hm2]
+  simp only [hN, hrow, e1, e2, mul_add, mul_ite_zero, ← List.sum_map_mul_left]
+
+theorem axShape_smul (fr : FextIn K) (c : K) (x : Loads K) (q : Nat) :
+    axShape (withLoads fr (x.smul c)) q = c * axShape (withLoads fr x) q :=
+  axShape_smul' (withLoads fr x) (withLoads fr (x.smul c)) c q rfl (fun k => map_mul_getD c x.Nxxtop k) rfl rfl rfl
+    rfl rfl rfl (fun _ _ => rfl)
+
+theorem prShape_withLoads (fr : FextIn K) (x : Loads K) (q : Nat) : prShape (withLoads fr x) q = prShape fr q := rfl
+
+theorem constPart_add (fr : FextIn K) (x y : Loads K) (i : Nat) :
+    constPart (withLoads fr (x.add y)) i = constPart (withLoads fr x) i + constPart (withLoads fr y) i := by
+  simp only [constPart, prShape_withLoads]
+  simp only [withLoads, Loads.add, ptShape_append]
+  by_cases hT : fr.pdT = true <;> simp only [hT, if_true, if_false, Bool.false_eq_true] <;> ring
+
+theorem incPart_add (fr : FextIn K) (x y : Loads K) (i : Nat) :
+    incPart (withLoads fr (x.add y)) i = incPart (withLoads fr x) i + incPart (withLoads fr y) i := by
+  simp only [incPart, prShape_withLoads, axShape_add]
+  simp only [withLoads, Loads.add, ptShape_append]
+  by_cases hT : fr.pdT = true <;> by_cases h0 : 0 ∈ fr.E <;>
+    simp only [hT, h0, if_true, if_false, Bool.false_eq_true] <;> ring
+
+theorem constPart_smul (fr : FextIn K) (c : K) (x : Loads K) (i : Nat) :
+    constPart (withLoads fr (x.smul c)) i = c * constPart (withLoads fr x) i := by
+  simp only [constPart, prShape_withLoads]
+  simp only [withLoads, Loads.smul, ptShape_scale]
+  by_cases hT : fr.pdT = true <;> simp only [hT, if_true, if_false, Bool.false_eq_true] <;> ring
+
+theorem incPart_smul (fr : FextIn K) (c : K) (x : Loads K) (i : Nat) :
+    incPart (withLoads fr (x.smul c)) i = c * incPart (withLoads fr x) i := by
+  simp only [incPart, prShape_withLoads, axShape_smul]
+  simp only [withLoads, Loads.smul, ptShape_scale]
+  by_cases hT : fr.pdT = true <;> by_cases h0 : 0 ∈ fr.E <;>
+    simp only [hT, h0, if_true, if_false, Bool.false_eq_true] <;> ring
+
+
+theorem WF_add (fr : FextIn K) (x y : Loads K) (hx : WF (withLoads fr x)) (hy : WF (withLoads fr y)) :
+    WF (withLoads fr (x.add y)) := by
+  refine ⟨hx.asc, hx.bound, hx.dofs, ?_, hx.g00⟩
+  intro f hf
+  have hf' : f ∈ (x.forces ++ y.forces) ++ (x.forcesInc ++ y.forcesInc) := hf
+  simp only [List.mem_append] at hf'
+  rcases hf' with (h | h) | (h | h)
+  · exact hx.forces f (List.mem_append_left _ h)
+  · exact hy.forces f (List.mem_append_left _ h)
+  · exact hx.forces f (List.mem_append_right _ h)
+  · exact hy.forces f (List.mem_append_right _ h)
+
+theorem WF_smul (fr : FextIn K) (c : K) (x : Loads K) (hx : WF (withLoads fr x)) :
+    WF (withLoads fr (x.smul c)) := by
+  refine ⟨hx.asc, hx.bound, hx.dofs, ?_, hx.g00⟩
+  intro f hf
+  have hf' : f ∈ x.forces.map (scaleForce c) ++ x.forcesInc.map (scaleForce c) := hf
+  simp only [List.mem_append, List.mem_map] at hf'
+  rcases hf' with ⟨g, hg, rfl⟩ | ⟨g, hg, rfl⟩
+  · exact hx.forces g (List.mem_append_left _ hg)
+  · exact hx.forces g (List.mem_append_right _ hg)
+
+theorem fext_const_inc_aux (a : FextIn K) (hw : WF a) (f : List K) (h : calcFext a = .ok f) :
+    f.length = a.size - a.E.length ∧
+      ∀ i, i < a.size - a.E.length → f.getD i 0 = constPart a i + a.inc * incPart a i := by
+  obtain ⟨hl, hv⟩ := calcFext_spec a hw f h
+  exact ⟨hl, fun i hi => by rw [hv i hi, fextSpec_eq_const_inc]⟩
+
+theorem fext_additive_aux (fr : FextIn K) (x y : Loads K) (hx : WF (withLoads fr x)) (hy : WF (withLoads fr y))
+    (fx fy fxy : List K) (ex : calcFext (withLoads fr x) = .ok fx) (ey : calcFext (withLoads fr y) = .ok fy)
+    (exy : calcFext (withLoads fr (x.add y)) = .ok fxy) (i : Nat) (hi : i < fr.size - fr.E.length) :
+    fxy.getD i 0 = fx.getD i 0 + fy.getD i 0 := by
+  have h1 := (fext_const_inc_aux _ hx fx ex).2 i hi
+  have h2 := (fext_const_inc_aux _ hy fy ey).2 i hi
+  have h3 := (fext_const_inc_aux _ (WF_add fr x y hx hy) fxy exy).2 i hi
+  rw [h1, h2, h3, constPart_add, incPart_add]
+  show _ = constPart (withLoads fr x) i + fr.inc * incPart (withLoads fr x) i
+    + (constPart (withLoads fr y) i + fr.inc * incPart (withLoads fr y) i)
+  show constPart (withLoads fr x) i + constPart (withLoads fr y) i
+    + fr.inc * (incPart (withLoads fr x) i + incPart (withLoads fr y) i) = _
+  ring
+
+theorem fext_homogeneous_aux (fr : FextIn K) (c : K) (x : Loads K) (hx : WF (withLoads fr x))
+    (fx fcx : List K) (ex : calcFext (withLoads fr x) = .ok fx)
+    (ecx : calcFext (withLoads fr (x.smul c)) = .ok fcx) (i : Nat) (hi : i < fr.size - fr.E.length) :
+    fcx.getD i 0 = c * fx.getD i 0 := by
+  have h1 := (fext_const_inc_aux _ hx fx ex).2 i hi
+  have h3 := (fext_const_inc_aux _ (WF_smul fr c x hx) fcx ecx).2 i hi
+  rw [h1, h3, constPart_smul, incPart_smul]
+  show c * constPart (withLoads fr x) i + fr.inc * (c * incPart (withLoads fr x) i)
+    = c * (constPart (withLoads fr x) i + fr.inc * incPart (withLoads fr x) i)
+  ring
+
+/-- `calc_fext` at load factor `t`, `0` and `1` -/
+theorem fext_affine_aux (a : FextIn K) (hw : WF a) (t : K) (f0 f1 ft : List K)
+    (e0 : calcFext { a with inc := 0 } = .ok f0) (e1 : calcFext { a with inc := 1 } = .ok f1)
+    (et : calcFext { a with inc := t } = .ok ft) (i : Nat) (hi : i < a.size - a.E.length) :
+    ft.getD i 0 = f0.getD i 0 + t * (f1.getD i 0 - f0.getD i 0) := by
+  have w : ∀ s : K, WF { a with inc := s } := fun s => ⟨hw.asc, hw.bound, hw.dofs, hw.forces, hw.g00⟩
+  have h0 := (fext_const_inc_aux _ (w 0) f0 e0).2 i hi
+  have h1 := (fext_const_inc_aux _ (w 1) f1 e1).2 i hi
+  have ht := (fext_const_inc_aux _ (w t) ft et).2 i hi
+  rw [h0, h1, ht]
+  show constPart a i + t * incPart a i = constPart a i + 0 * incPart a i
+    + t * (constPart a i + 1 * incPart a i - (constPart a i + 0 * incPart a i))
+  ring
+
+/-! ### virtual work of the point forces -/
+
+/-- displacement component `r` at the point of a force for the amplitude vector `c`: `Σ_q g[r][q]·c_q` -/
+def disp (size : Nat) (g : List (List K)) (r : Nat) (c : Nat → K) : K := sumTo size fun q => rowAt g r q * c q
+
+theorem sumTo_add (n : Nat) (f g : Nat → K) : sumTo n (fun q => f q + g q) = sumTo n f + sumTo n g := by
+  rw [sumTo_eq_finset, sumTo_eq_finset, sumTo_eq_finset, Finset.sum_add_distrib]
+
+theorem sumTo_mul_left (n : Nat) (c : K) (f : Nat → K) : sumTo n (fun q => c * f q) = c * sumTo n f := by
+  rw [sumTo_eq_finset, sumTo_eq_finset, Finset.mul_sum]
+
+theorem sumTo_zero (n : Nat) : sumTo n (fun _ => (0 : K)) = 0 := by
+  rw [sumTo_eq_finset]; simp
+
+theorem ptShape_work (size : Nat) (fs : List (PointForce K)) (c : Nat → K) :
+    sumTo size (fun q => ptShape fs q * c q) =
+      (fs.map fun f => f.fx * disp size f.g 0 c + f.ft * disp size f.g 1 c + f.fz * disp size f.g 2 c).sum := by
+  induction fs with
+  | nil => simp [ptShape, sumTo_zero]
+  | cons f fs ih =>
+    have : (fun q => ptShape (f :: fs) q * c q) = fun q => pointRow f q * c q + ptShape fs q * c q := by
+      funext q; simp only [ptShape, List.map_cons, List.sum_cons]; ring
+    rw [this, sumTo_add, ih, List.map_cons, List.sum_cons]
+    congr 1
+    unfold disp pointRow
+    rw [← sumTo_mul_left, ← sumTo_mul_left, ← sumTo_mul_left, ← sumTo_add, ← sumTo_add]
+    apply sumTo_congr
+    intro q _
+    ring
+
+/-- `Σ_i (point-force part of fext)_i · c_u,i` is the sum over the forces of `f · (u, v, w)` at the point of the force,
+for every amplitude vector that vanishes at the prescribed positions -/
+theorem point_forces_virtual_work_aux (size : Nat) (E : List Nat) (hasc : E.Pairwise (· < ·)) (hb : ∀ e ∈ E, e < size)
+    (fs : List (PointForce K)) (c : Nat → K) (hc : ∀ e ∈ E, c e = 0) :
+    sumTo (size - E.length) (fun i => ptShape fs (up E i) * c (up E i)) =
+      (fs.map fun f => f.fx * disp size f.g 0 c + f.ft * disp size f.g 1 c + f.fz * disp size f.g 2 c).sum := by
+  rw [← ptShape_work, sumTo_split E hasc size hb]
+  have : (E.map fun q => ptShape fs q * c q) = E.map fun _ => (0 : K) := by
+    apply List.map_congr_left
+    intro e he
+    rw [hc e he, mul_zero]
+  rw [this]
+  simp
+
+end lin
+
+/-! ## what `static` solves; witnesses of the recorded findings -/
+
+set_option linter.unusedSimpArgs false
+
+section cex
+variable {K : Type} [Field K] [DecidableEq K]
+set_option linter.unusedSectionVars false
+set_option linter.unusedSimpArgs false
+
+theorem calcFext_ok_of (a : FextIn K) (h : ¬ (a.P + a.inc * a.Pinc ≠ 0 ∧ (!a.clpt) = true ∧ a.fsdt = true)) :
+    ∃ f, calcFext a = .ok f := by
+  unfold calcFext
+  simp only []
+  rw [if_neg h]
+  exact ⟨_, rfl⟩
+
+/-- what the solution of the system handed to `solve` satisfies on the rows of the free amplitudes -/
+theorem static_rows_aux (num0 n : Nat) (E : List Nat) (ck : List K) (k : Coo K) (cu f : List K)
+    (hasc : E.Pairwise (· < ·)) (hb : ∀ e ∈ E, e < n) (hnum : ∀ e ∈ E, e < num0) (hck : ck.length = E.length)
+    (hcu : cu.length + E.length = n) (hne : E ≠ [])
+    (hsolve : ∀ i, i < cu.length →
+      sumTo cu.length (fun j => (excludeDofsMatrix num0 E n k).kuu.toFun i j * cu.getD j 0) = f.getD i 0) :
+    ∀ i, i < cu.length →
+      sumTo n (fun j => k.toFun (up E i) j * (calcFullC n E ck 1 cu).getD j 0) =
+        f.getD i 0 + ((E.zip ck).map fun q => (excludeDofsMatrix num0 E n k).kuk.toFun i q.1 * q.2).sum := by
+  intro i hi
+  let fu : List K := vecOf cu.length fun i =>
+    f.getD i 0 + ((E.zip ck).map fun q => (excludeDofsMatrix num0 E n k).kuk.toFun i q.1 * q.2).sum
+  have hfu : ∀ i, i < cu.length → fu.getD i 0 =
+      f.getD i 0 + ((E.zip ck).map fun q => (excludeDofsMatrix num0 E n k).kuk.toFun i q.1 * q.2).sum :=
+    fun i hi => vecOf_getD _ _ _ hi
+  have := reduced_system_aux num0 n E ck 1 k cu fu hasc hb hnum hck hcu hne (fun i hi => by
+    rw [hsolve i hi, hfu i hi]
+    simp only [one_mul]
+    ring) i hi
+  rw [this, hfu i hi]
+
+end cex
+
+/-! ### concrete witnesses (over ℚ) -/
+
+theorem kkk_counterexample_aux :
+    let k : Coo ℚ := [(0, 0, 1), (1, 1, 2), (2, 2, 3)]
+    let E : List Nat := [1, 2]
+    E.Pairwise (· < ·) ∧ (∀ e ∈ E, e < 3) ∧
+      (excludeDofsMatrix 3 E 3 k).shapeKK = (1, 1) ∧
+      (excludeDofsMatrix 3 E 3 k).kkk.toFun 0 0 = k.toFun 0 0 ∧ k.toFun 0 0 = 1 ∧ k.toFun 1 1 = 2 := by
+  intro k E
+  have hasc : E.Pairwise (· < ·) := by simp [E]
+  refine ⟨hasc, by simp [E], rfl, ?_, ?_, ?_⟩
+  · rw [kkk_entry_aux 3 3 E hasc]
+    simp [E, up, skip]
+  · simp [k, Coo.toFun]
+  · simp [k, Coo.toFun]
+
+/-- a reduced matrix with a null row that carries load: NO vector satisfies the system -/
+theorem null_row_counterexample_aux :
+    let k : Coo ℚ := [(0, 0, 2), (2, 2, 1)]
+    (∀ j, (excludeDofsMatrix 3 [0, 2] 3 k).kuu.toFun 0 j = 0) ∧
+    (∀ x : List ℚ, sumTo 1 (fun j => (excludeDofsMatrix 3 [0, 2] 3 k).kuu.toFun 0 j * x.getD j 0) ≠ 7) := by
+  intro k
+  have hasc2 : ([0, 2] : List Nat).Pairwise (· < ·) := by simp
+  have h0 : ∀ j, (excludeDofsMatrix 3 [0, 2] 3 k).kuu.toFun 0 j = 0 := by
+    intro j
+    rw [kuu_entry_aux 3 3 [0, 2] hasc2]
+    simp [k, up, skip, Coo.toFun]
+  exact ⟨h0, fun x => by simp [sumTo, h0]⟩
+
+/-- the witness of the torque finding: `v(0,0)` also moves with amplitude 3 (a `cos(jθ)` term, as in the bc3 models) -/
+def torqueWitness : FextIn ℚ :=
+  { size := 4, num0 := 3, num1 := 0, num2 := 0, m1 := 0, m2 := 0, n2 := 0, i0 := 0, j0 := 1, dofs := 3, E := [2],
+    forces := [], forcesInc := [], inc := 1, uTM := 0, thetaT := 0, Nxxtop := [0], pi := 3, r2 := 2, cosa := 1,
+    sina := 0, L := 1, bc24 := false, clpt := true, fsdt := false, pdT := false, P := 0, Pinc := 0, T := 6, Tinc := 0,
+    g00 := [[1, 0, 0, 0], [0, 2, 0, 1], [0, 0, 0, 0]], k0uk := [] }
+
+theorem torqueWitness_WF : WF torqueWitness := by
+  refine ⟨by simp [torqueWitness], by simp [torqueWitness], Or.inl rfl, by simp [torqueWitness], ?_⟩
+  simp [torqueWitness]
+
+theorem torque_counterexample_aux :
+    ∃ f, calcFext torqueWitness = .ok f ∧ f.getD 1 0 = torqueWitness.T ∧ f.getD 2 0 = 3 := by
+  obtain ⟨f, hf⟩ := calcFext_ok_of torqueWitness (by simp [torqueWitness])
+  refine ⟨f, hf, ?_, ?_⟩
+  · rw [(fext_const_inc_aux _ torqueWitness_WF f hf).2 1 (by simp [torqueWitness])]
+    simp [constPart, incPart, ptShape, prShape, axShape, rowAt, torqueWitness, up, skip]
+  · rw [(fext_const_inc_aux _ torqueWitness_WF f hf).2 2 (by simp [torqueWitness])]
+    simp [constPart, incPart, ptShape, prShape, axShape, rowAt, torqueWitness, up, skip]
+    norm_num
+
+
+/-- the witness of the load-asymmetry finding: amplitude 2 (prescribed, `LA = 1`) is coupled to the free amplitude 3 -/
+def laMatrix : Coo ℚ := [(0, 0, 1), (1, 1, 1), (2, 2, 1), (3, 3, 1), (3, 2, 5), (2, 3, 5)]
+
+def laWitness : FextIn ℚ :=
+  { size := 4, num0 := 3, num1 := 0, num2 := 0, m1 := 0, m2 := 0, n2 := 0, i0 := 0, j0 := 1, dofs := 3, E := [1, 2],
+    forces := [], forcesInc := [], inc := 1, uTM := 0, thetaT := 0, Nxxtop := [0], pi := 3, r2 := 2, cosa := 1,
+    sina := 0, L := 1, bc24 := false, clpt := true, fsdt := false, pdT := true, P := 0, Pinc := 0, T := 0, Tinc := 0,
+    g00 := [[1, 0, 0, 0], [0, 2, 0, 0], [0, 0, 0, 0]], k0uk := (excludeDofsMatrix 3 [1, 2] 4 laMatrix).kuk }
+
+theorem laWitness_WF : WF laWitness := by
+  refine ⟨by simp [laWitness], by simp [laWitness], Or.inl rfl, by simp [laWitness], ?_⟩
+  simp [laWitness]
+
+/-- no load at all, prescribed rotation 0, load-asymmetry amplitude `LA = 1`: the right-hand side handed to the
+solver is zero, the exact solution of the reduced system is zero, and the row of the free amplitude 3 of the full
+system reads `5 = 0`. -/
+theorem static_rhs_counterexample_aux :
+    ∃ f, staticLinear (fun _ f => f.map fun _ => 0) false true (excludeDofsMatrix 3 [1, 2] 4 laMatrix).kuu laWitness
+        = .ok (((excludeDofsMatrix 3 [1, 2] 4 laMatrix).kuu, f), ([1], [f.map fun _ => 0])) ∧
+      f.length = 2 ∧ (∀ i, i < 2 → f.getD i 0 = 0) ∧
+      sumTo 4 (fun j => laMatrix.toFun (up [1, 2] 1) j * (calcFullC 4 [1, 2] [0, 1] 1 [0, 0]).getD j 0) = 5 := by
+  obtain ⟨f, hf⟩ := calcFext_ok_of { laWitness with inc := 1 } (by simp [laWitness])
+  have hw : WF { laWitness with inc := 1 } := laWitness_WF
+  obtain ⟨hl, hv⟩ := fext_const_inc_aux _ hw f hf
+  refine ⟨f, ?_, hl, ?_, ?_⟩
+  · unfold staticLinear
+    simp only [Bool.false_eq_true, if_false, Bool.not_true]
+    rw [hf]
+  · intro i hi
+    have hi' : i < ({ laWitness with inc := 1 } : FextIn ℚ).size - ({ laWitness with inc := 1 } : FextIn ℚ).E.length := hi
+    rw [hv i hi']
+    have e1 : ∀ i, laWitness.k0uk.toFun i 1 = if (1:Nat) < 3 then laMatrix.toFun (up [1, 2] i) 1 else 0 := fun i =>
+      kuk_entry_aux 3 4 [1, 2] (by simp) laMatrix i 1
+    have : i = 0 ∨ i = 1 := by omega
+    rcases this with rfl | rfl <;>
+      simp [constPart, incPart, ptShape, prShape, axShape, laWitness]
+  · simp [sumTo, List.range_succ, calcFullC, up, skip, laMatrix, Coo.toFun, List.mergeSort]
+
+
+section axial
+variable {K : Type} [Field K] [DecidableEq K]
+set_option linter.unusedSectionVars false
+
+theorem fext_tmp_entry_aux (a : FextIn K) (Ptot : K) :
+    (fextTmp a Ptot).length = a.size ∧
+      ∀ q, q < a.size → (fextTmp a Ptot).getD q 0 = a.inc * axShape a q + Ptot * prShape a q := by
+  obtain ⟨hl, hv⟩ := fextTmp_spec a Ptot
+  exact ⟨hl, fun q hq => by rw [hv q hq, tmpSpec_eq]⟩
+
+theorem fext_torque_partial_aux (a : FextIn K) (hr : a.r2 ≠ 0) (hpdT : a.pdT = false)
+    (hg : ∀ q, rowAt a.g00 1 q = if q = 1 then a.r2 else 0) (i : Nat) :
+    constPart a i + a.inc * incPart a i =
+      (ptShape a.forces (up a.E i) + a.P * prShape a (up a.E i))
+      + a.inc * (ptShape a.forcesInc (up a.E i) + axShape a (up a.E i) + a.Pinc * prShape a (up a.E i)
+          - (if 0 ∈ a.E then a.uTM * a.k0uk.toFun i 0 else 0))
+      + (a.T + a.inc * a.Tinc) * (if up a.E i = 1 then 1 else 0) := by
+  unfold constPart incPart
+  rw [hg]
+  simp only [hpdT, Bool.false_eq_true, if_false]
+  by_cases h1 : up a.E i = 1
+  · simp only [h1, if_true]; field_simp; ring
+  · simp only [h1, if_false]; ring
+
+theorem static_passes_aux (solve : Coo K → List K → List K) (pdC lin : Bool) (kuu : Coo K) (a : FextIn K) :
+    (pdC = true → staticLinear solve pdC lin kuu a = .error .prescribedShortening) ∧
+    (pdC = false → lin = false → staticLinear solve pdC lin kuu a = .error .modelNotStatic) ∧
+    (pdC = false → lin = true → ∀ f, calcFext { a with inc := 1 } = .ok f →
+      staticLinear solve pdC lin kuu a = .ok ((kuu, f), ([1], [solve kuu f]))) := by
+  refine ⟨fun h => by simp [staticLinear, h], fun h1 h2 => by simp [staticLinear, h1, h2], fun h1 h2 f hf => ?_⟩
+  simp [staticLinear, h1, h2, hf]
+
+/-- without the name test `'bc2' in model or 'bc4' in model` only `Nxxtop[0]` (and the dead `Nxxtop[2]` branch)
+reach `fext`: every circumferential harmonic of the edge load is ignored -/
+theorem axShape_no_bc24 (a : FextIn K) (h : a.bc24 = false) (q : Nat) :
+    axShape a q = (if 0 ∉ a.E then (if q = 0 then a.Nxxtop.getD 0 0 * (2 * a.pi * a.r2) / a.cosa else 0) else 0)
+      + (if 2 ∉ a.E then (if q = 2 then a.Nxxtop.getD 2 0 * (2 * a.pi * a.r2) / a.cosa else 0) else 0) := by
+  unfold axShape
+  simp [h]
+
+end axial
+
+/-- the witness of the harmonics finding: one pair `(i2, j2)` of the second set, `u` free at the loaded edge
+(amplitudes 3, 4 are the `sin θ` / `cos θ` terms of `u`), edge load `Nxxtop = [0, 7, 0]` (a pure `sin θ` harmonic) -/
+def harmonicsWitness (bc24 : Bool) : FextIn ℚ :=
+  { size := 9, num0 := 3, num1 := 0, num2 := 6, m1 := 0, m2 := 1, n2 := 1, i0 := 0, j0 := 1, dofs := 3, E := [1, 2],
+    forces := [], forcesInc := [], inc := 1, uTM := 0, thetaT := 0, Nxxtop := [0, 7, 0], pi := 3, r2 := 2, cosa := 1,
+    sina := 0, L := 1, bc24 := bc24, clpt := true, fsdt := false, pdT := true, P := 0, Pinc := 0, T := 0, Tinc := 0,
+    g00 := [[1, 0, 0, 0, 1, 0, 0, 0, 0], [0, 2, 0, 0, 0, 0, 0, 0, 0], [0, 0, 0, 0, 0, 0, 0, 0, 0]], k0uk := [] }
+
+theorem harmonics_counterexample_aux :
+    axShape (harmonicsWitness true) 3 = 42 ∧ (∀ q, axShape (harmonicsWitness false) q = 0) := by
+  constructor
+  · simp [axShape, harmonicsWitness, rowOf]
+    norm_num
+  · intro q
+    rw [axShape_no_bc24 _ rfl]
+    simp [harmonicsWitness]
+
+
 /-! ## real analysis: the pressure closed form and the circumferential harmonics -/
 
 section analysis
@@ -1170,6 +1638,39 @@ theorem pressure_closed_form_aux (i : ℕ) (hi : 1 ≤ i) (L r2 sa : ℝ) (hL : 
     field_simp
     ring
   · apply Continuous.intervalIntegrable
+    fun_prop
+
+theorem pressure_x_integral (i : ℕ) (hi : 1 ≤ i) (L r2 sa : ℝ) (hL : L ≠ 0) :
+    ∫ x in (0:ℝ)..L, 2 * π * (Real.sin (i * π * x / L) * (r2 + x * sa)) = pressureCoef L r2 sa i := by
+  rw [← pressure_closed_form_aux i hi L r2 sa hL]
+  congr 1
+  funext x
+  rw [intervalIntegral.integral_const, smul_eq_mul, sub_zero]
+
+theorem pressure_work_aux (m1 i0 : ℕ) (cw : ℕ → ℝ) (L r2 sa : ℝ) (hL : L ≠ 0) :
+    (∫ x in (0:ℝ)..L, ∫ _θ in (0:ℝ)..(2 * π),
+        (∑ di ∈ Finset.range m1, cw di * Real.sin ((i0 + di : ℕ) * π * x / L)) * (r2 + x * sa))
+      = ∑ di ∈ Finset.range m1, cw di * (if i0 + di = 0 then 0 else pressureCoef L r2 sa (i0 + di)) := by
+  have inner : ∀ x : ℝ, (∫ _θ in (0:ℝ)..(2 * π),
+      (∑ di ∈ Finset.range m1, cw di * Real.sin ((i0 + di : ℕ) * π * x / L)) * (r2 + x * sa))
+      = ∑ di ∈ Finset.range m1, cw di * (2 * π * (Real.sin ((i0 + di : ℕ) * π * x / L) * (r2 + x * sa))) := by
+    intro x
+    rw [intervalIntegral.integral_const, smul_eq_mul, sub_zero, Finset.sum_mul, Finset.mul_sum]
+    apply Finset.sum_congr rfl
+    intro di _
+    ring
+  simp_rw [inner]
+  rw [intervalIntegral.integral_finsetSum]
+  · apply Finset.sum_congr rfl
+    intro di _
+    rw [intervalIntegral.integral_const_mul]
+    congr 1
+    by_cases h0 : i0 + di = 0
+    · rw [if_pos h0, h0]; simp
+    · rw [if_neg h0]
+      exact pressure_x_integral (i0 + di) (by omega) L r2 sa hL
+  · intro di _
+    apply Continuous.intervalIntegrable
     fun_prop
 
 theorem harmonic_integrals_zero_aux (j : ℕ) (hj : 1 ≤ j) :
